@@ -101,7 +101,10 @@ def build_image(case: Dict[str, Any], seed: int = 0, overrides: Optional[Dict[st
     for i0, p in enumerate(img["partials"]):
         i = sl(i0)
         dirent("partial", i, p["name"])
-        refs = [sl(x) for x in p["refs"]] + [-1] * (4 - len(p["refs"]))
+        refs = [sl(x) for x in p["refs"]]
+        if spread and len(refs) == 2:
+            refs = [refs[0], -1, refs[1]]                      # an unused slot between two used ones
+        refs = refs + [-1] * (4 - len(refs))
         put(buf, A["partial_param"] + 0x80 * i,
             pack("roland_partial_param", dict(name=p["name"], sample_1=partial_sample(refs[0]), sample_2=partial_sample(refs[1]),
                                               sample_3=partial_sample(refs[2]), sample_4=partial_sample(refs[3]),
